@@ -262,61 +262,63 @@ theorem Uniq.drvOp {s s' : St} {ob : Obs} {sendOk : Bool} (h : Uniq s) (hr : Cha
             · intro p hp; simp [Conn.endDriver] at hp
             · exact ⟨fun p hp => by simp [Conn.endDriver] at hp, fun p hp => by simp [Conn.endDriver] at hp⟩
           · split at hs
-            · next hkind =>
-              -- single
-              simp only [Option.some.injEq, Prod.mk.injEq] at hs
-              obtain ⟨rfl, _⟩ := hs
-              simp only [hkind]
-              apply h.of_shrink hr ((hset _ _ rfl).trans (mono_dropSenderOpt _ _)) hrest
-              · intro p hp
-                rcases mem_insert hp with e | ⟨q, _⟩
-                · exact Or.inr (by rw [e]; exact hi)
-                · exact Or.inl q
-              · intro p hp; exact Or.inl hp
-              · refine ⟨fun p hp => ?_, h.mapIn.2⟩
-                rcases mem_insert hp with e | ⟨q, _⟩
-                · rw [e]; exact hidin
-                · exact h.mapIn.1 p q
-            · next hkind =>
-              -- search
-              simp only [Option.some.injEq, Prod.mk.injEq] at hs
-              obtain ⟨rfl, _⟩ := hs
-              obtain ⟨c, hchan⟩ : ∃ c, o.chan = some c := by
-                have := (ha.kindChan i o ho).mp hkind
-                cases hc : o.chan with
-                | none => exact absurd hc this
-                | some c => exact ⟨c, rfl⟩
-              simp only [hkind, hchan]
-              apply h.of_shrink hr ((hset _ _ hchan.symm).trans (mono_modify _ _ (fun o => { o with mail := .ack }) (fun o => ⟨rfl, rfl, fun h => h⟩))) hrest
-              · intro p hp; exact Or.inl hp
-              · intro p hp
-                rcases mem_insert hp with e | ⟨q, _⟩
-                · exact Or.inr ⟨i, hi, o, ho, by rw [e]; exact hchan⟩
-                · exact Or.inl q
-              · refine ⟨h.mapIn.1, fun p hp => ?_⟩
-                rcases mem_insert hp with e | ⟨q, _⟩
-                · rw [e]; exact hidin
-                · exact h.mapIn.2 p q
-            · next t hkind =>
-              -- abandon
-              simp only [Option.some.injEq, Prod.mk.injEq] at hs
-              obtain ⟨rfl, _⟩ := hs
-              simp only [hkind]
-              apply h.of_shrink hr (((hset _ _ rfl).trans (mono_dropSenderOpt _ _)).trans (mono_modify _ _ (fun o => { o with mail := .ack }) (fun o => ⟨rfl, rfl, fun h => h⟩))) hrest
-              · intro p hp; exact Or.inl (mem_erase hp).1
-              · intro p hp; exact Or.inl (mem_erase hp).1
-              · refine ⟨fun p hp => ?_, fun p hp => ?_⟩
-                · obtain ⟨h1, h2⟩ := mem_erase hp
-                  exact mem_eraseId.mpr ⟨mem_eraseId.mpr ⟨h.mapIn.1 p h1, fun e => hnr p h1 (by exact_mod_cast e)⟩, h2⟩
-                · obtain ⟨h1, h2⟩ := mem_erase hp
-                  exact mem_eraseId.mpr ⟨mem_eraseId.mpr ⟨h.mapIn.2 p h1, fun e => hns p h1 (by exact_mod_cast e)⟩, h2⟩
-            · next hkind =>
-              -- unbind
-              simp only [Option.some.injEq, Prod.mk.injEq] at hs
-              obtain ⟨rfl, _⟩ := hs
-              simp only [hkind]
-              exact h.of_shrink hr ((hset _ _ rfl).trans (mono_modify _ _ (fun o => { o with mail := .ack }) (fun o => ⟨rfl, rfl, fun h => h⟩))) hrest
-                (fun p hp => Or.inl hp) (fun p hp => Or.inl hp) h.mapIn
+            · cases hs
+            · split at hs
+              · next hkind =>
+                -- single
+                simp only [Option.some.injEq, Prod.mk.injEq] at hs
+                obtain ⟨rfl, _⟩ := hs
+                simp only [hkind]
+                apply h.of_shrink hr ((hset _ _ rfl).trans (mono_dropSenderOpt _ _)) hrest
+                · intro p hp
+                  rcases mem_insert hp with e | ⟨q, _⟩
+                  · exact Or.inr (by rw [e]; exact hi)
+                  · exact Or.inl q
+                · intro p hp; exact Or.inl hp
+                · refine ⟨fun p hp => ?_, h.mapIn.2⟩
+                  rcases mem_insert hp with e | ⟨q, _⟩
+                  · rw [e]; exact hidin
+                  · exact h.mapIn.1 p q
+              · next hkind =>
+                -- search
+                simp only [Option.some.injEq, Prod.mk.injEq] at hs
+                obtain ⟨rfl, _⟩ := hs
+                obtain ⟨c, hchan⟩ : ∃ c, o.chan = some c := by
+                  have := (ha.kindChan i o ho).mp hkind
+                  cases hc : o.chan with
+                  | none => exact absurd hc this
+                  | some c => exact ⟨c, rfl⟩
+                simp only [hkind, hchan]
+                apply h.of_shrink hr ((hset _ _ hchan.symm).trans (mono_modify _ _ (fun o => { o with mail := .ack }) (fun o => ⟨rfl, rfl, fun h => h⟩))) hrest
+                · intro p hp; exact Or.inl hp
+                · intro p hp
+                  rcases mem_insert hp with e | ⟨q, _⟩
+                  · exact Or.inr ⟨i, hi, o, ho, by rw [e]; exact hchan⟩
+                  · exact Or.inl q
+                · refine ⟨h.mapIn.1, fun p hp => ?_⟩
+                  rcases mem_insert hp with e | ⟨q, _⟩
+                  · rw [e]; exact hidin
+                  · exact h.mapIn.2 p q
+              · next t hkind =>
+                -- abandon
+                simp only [Option.some.injEq, Prod.mk.injEq] at hs
+                obtain ⟨rfl, _⟩ := hs
+                simp only [hkind]
+                apply h.of_shrink hr (((hset _ _ rfl).trans (mono_dropSenderOpt _ _)).trans (mono_modify _ _ (fun o => { o with mail := .ack }) (fun o => ⟨rfl, rfl, fun h => h⟩))) hrest
+                · intro p hp; exact Or.inl (mem_erase hp).1
+                · intro p hp; exact Or.inl (mem_erase hp).1
+                · refine ⟨fun p hp => ?_, fun p hp => ?_⟩
+                  · obtain ⟨h1, h2⟩ := mem_erase hp
+                    exact mem_eraseId.mpr ⟨mem_eraseId.mpr ⟨h.mapIn.1 p h1, fun e => hnr p h1 (by exact_mod_cast e)⟩, h2⟩
+                  · obtain ⟨h1, h2⟩ := mem_erase hp
+                    exact mem_eraseId.mpr ⟨mem_eraseId.mpr ⟨h.mapIn.2 p h1, fun e => hns p h1 (by exact_mod_cast e)⟩, h2⟩
+              · next hkind =>
+                -- unbind
+                simp only [Option.some.injEq, Prod.mk.injEq] at hs
+                obtain ⟨rfl, _⟩ := hs
+                simp only [hkind]
+                exact h.of_shrink hr ((hset _ _ rfl).trans (mono_modify _ _ (fun o => { o with mail := .ack }) (fun o => ⟨rfl, rfl, fun h => h⟩))) hrest
+                  (fun p hp => Or.inl hp) (fun p hp => Or.inl hp) h.mapIn
 
 theorem Uniq.route {s : St} (h : Uniq s) (hr : ChanOf s) (ha : Acct s) (n c : Nat) (f : Frame)
     (hmem : (n, c) ∈ s.searchmap) (hn : (n : Int) = f.id) : Uniq (routeSearch s c f) := by
